@@ -158,8 +158,14 @@ func TestVerifEndpoints(t *testing.T) {
 		}
 	}()
 	for i := 0; i < 40; i++ {
-		s.mgr.UpdateTag("mark/c", UpdateTagOperationSetConverter([]string{"quiet"}))
-		s.mgr.UpdateTag("mark/c", UpdateTagOperationSetConverter([]string{"noisy", "quiet"}))
+		// (a new attachment goes to the end of the tag's list: alternate the one that stays, so that the one that is
+		// detached is the first of the list and the others move)
+		keep, other := "quiet", "noisy"
+		if i%2 == 1 {
+			keep, other = other, keep
+		}
+		s.mgr.UpdateTag("mark/c", UpdateTagOperationSetConverter([]string{keep}))
+		s.mgr.UpdateTag("mark/c", UpdateTagOperationSetConverter([]string{keep, other}))
 		s.mgr.UpdateTag("mark/c", UpdateTagOperationMarkAddStream([]uint64{2}))
 		s.mgr.UpdateTag("mark/c", UpdateTagOperationMarkDelStream([]uint64{2}))
 	}
